@@ -588,6 +588,8 @@ def model_cases(draw, classes=None, max_nodes=5, p_node=4, p_se=4, p_ignore=4, p
             kw["subset_constraints_coverage" if cyc else "subpath_constraints_coverage"] = coverage
     if cls not in MINCLS:
         kw["k"] = len(planted) + ch.below(k_slack + 1)
+        if ch.coin(1, 5):
+            kw["k"] = max(1, len({tuple(r) for r, _w in planted}) - 1)  # below the witness: usually infeasible
         if cyc and cls in INEXACT:
             kw["k"] = min(kw["k"], 3)  # walk-model MILPs with k >= 4 routinely need > 30 s even on 5 nodes
     if p_opts and one_in(p_opts):
